@@ -31,6 +31,12 @@ type rFrame struct {
 func (f rFrame) build() []byte {
 	var z []byte
 	switch f.Kind {
+	case "nothing":
+		// no data frame at all: N complete skippable frames (N may be 0: the empty source)
+		for i := 0; i < f.N; i++ {
+			z = append(z, byte(0x50+i), 0x2A, 0x4D, 0x18, 3, 0, 0, 0, 'x', 'y', 'z')
+		}
+		return z
 	case "enc", "badoffset":
 		z, _ = f.Spec.Build()
 	default:
@@ -176,6 +182,11 @@ func (r *rRun) run(c c17RCase) {
 		r.curDesc = fmt.Sprintf("%s-in-%s-state/%s", op.Op, rsNames[state], cm)
 		fr := parsed[cur]
 		valid := fr.OK() && fr.OutOfDom == "" && fr.Unspec == ""
+		if c.Frames[cur].Kind == "nothing" {
+			// a source without any data frame is a stream that ends at once: no content, everything consumed
+			fr = &ref.Frame{Consumed: len(frames[cur]), BlockIndep: true}
+			valid = true
+		}
 		where := fmt.Sprintf("op %d %s in state %s (frame %d: %s, %d bytes, reference: ok=%v %s; concurrency %d)", i, op, rsNames[state], cur, c.Frames[cur].Kind, len(frames[cur]), fr.OK(), fr.Err, conc)
 		if op.Op == "reset" {
 			if state == rsReading && conc > 1 && !fr.Legacy && fr.BlockIndep {
@@ -508,6 +519,10 @@ func drawRFrame(t *rapid.T) rFrame {
 	case 7:
 		f.Kind = "badoffset"
 		f.Spec = badOffsetSpec(false)
+		if rapid.Bool().Draw(t, "nothing?") {
+			f = rFrame{Kind: "nothing", N: rapid.IntRange(0, 2).Draw(t, "nskips")}
+			return f
+		}
 	default:
 		f.Kind = "mutated"
 		f.Opts = drawWopts(t, false, 0)
@@ -625,9 +640,10 @@ func TestC17ReaderExhaustive(t *testing.T) {
 		{Kind: "enc", Spec: &dep},
 		{Kind: "writer", Opts: wopts{BS: 4, Conc: 1, Legacy: true}, N: 3000, Seed: 2},
 		{Kind: "badoffset", Spec: badOffsetSpec(false)},
+		{Kind: "nothing", N: 1},
 	}
 	alphabet := []rOp{{Op: "read", N: 1}, {Op: "read", N: 65536}, {Op: "read", N: 1 << 20}, {Op: "writeto"}, {Op: "size"},
-		{Op: "apply", Conc: 2}, {Op: "reset", Frame: 0}, {Op: "reset", Frame: 1}, {Op: "reset", Frame: 2}, {Op: "reset", Frame: 3}}
+		{Op: "apply", Conc: 2}, {Op: "reset", Frame: 0}, {Op: "reset", Frame: 1}, {Op: "reset", Frame: 2}, {Op: "reset", Frame: 3}, {Op: "reset", Frame: 4}}
 	maxLen := pick(4, 5)
 	var seq []rOp
 	count := 0
